@@ -80,6 +80,10 @@ INFO = {
     "C18-4": ("backtrace capacity handed to the backend through an atomic on the logger instead of inside the InitBacktrace message", "a second init_backtrace() with another capacity before the backend processed the first InitBacktrace event"),
     "C19-4": ("joined named-arg values kept in a member buffer that is cleared after use, not before", "a named statement whose SECOND or later value fails to format, then the next named statement (any logger / thread)"),
     "C20-4": ("counter of invalid thread contexts replaced by a flag that every removal clears", "a reclaim scan that removes one context and leaves another exited thread's context behind (backlog at a flush-time scan, or exit during the scan)"),
+    "C01-4": ("ring mask computed from the REQUESTED capacity instead of the rounded-up one", "a capacity request that is not a power of two and a producer further ahead of the consumer than the lowest dropped mask bit"),
+    "C02-4": ("UnboundedSPSCQueue::empty() looks only one buffer ahead (true when the direct successor is unused)", "chain drained -> never written -> holds records (two re-allocations in a row), emptiness asked before the next read pass (stop, exit, ManualBackendWorker::poll)"),
+    "C13-4": ("incremental update skips rewriting hh:mm when the minute of the day equals a remembered one that cache rebuilds do not reset", "GMT mode: incremental update at minute X, rebuild(s) at another hh:mm, then the first incremental update in minute X again"),
+    "C15-4": ("_file_size = 0 moved from _rotate_files() into _size_rotation(): a time rotation no longer resets the byte count", "size AND time rotation: the file opened by a time rotation inherits the rotated file's size and is size-rotated early"),
     "C17-2": ("SinkManager::_insert_sink uses upper_bound", "a sink expires without a logger removal, the same sink name is created again and looked up before any logger is removed"),
 }
 for name, (change, needs) in INFO.items():
